@@ -14,7 +14,7 @@ def main():
     ap.add_argument("pid")
     ap.add_argument("--tier", default=os.environ.get("VERIF_TIER", "quick"), choices=["quick", "thorough"])
     ap.add_argument("--replay", default=None)
-    ap.add_argument("--seed", type=int, default=int(os.environ.get("VERIF_SEED", "20260922")))
+    ap.add_argument("--seed", type=int, default=int(os.environ.get("VERIF_SEED") or "20260922"))
     a = ap.parse_args()
     lib.import_repo()
     mod = importlib.import_module(f"props.{a.pid}")
